@@ -1,6 +1,7 @@
 package main
 
 import (
+	"encoding/hex"
 	"fmt"
 	"math"
 	"math/big"
@@ -65,6 +66,10 @@ var (
 	tIface   = reflect.TypeOf((*interface{})(nil)).Elem()
 	tBigPtr  = reflect.TypeOf((*big.Int)(nil))
 	tBig     = reflect.TypeOf(big.Int{})
+	tBigFloatPtr = reflect.TypeOf((*big.Float)(nil))
+	tBigFloat    = reflect.TypeOf(big.Float{})
+	tFloat32 = reflect.TypeOf(float32(0))
+	tFloat64 = reflect.TypeOf(float64(0))
 	tTime    = reflect.TypeOf(time.Time{})
 	tDur     = reflect.TypeOf(time.Duration(0))
 	tIP      = reflect.TypeOf(net.IP{})
@@ -77,12 +82,50 @@ var (
 	tArr16   = reflect.TypeOf([16]byte{})
 )
 
+// isBigPtr: *big.Int and *big.Float are accepted as they are (the pointer is the representation; a pointer to them is not accepted)
+func isBigPtr(t reflect.Type) bool { return t == tBigPtr || t == tBigFloatPtr }
+
 // srep: one accepted Go type for a scalar CQL type
 type srep struct {
 	name string
 	gt   reflect.Type
 	ok   func(a *aval) bool
 	mk   func(a *aval) interface{}
+}
+
+var intRepBits = map[string]struct {
+	bits   uint
+	signed bool
+}{"int64": {64, true}, "int": {64, true}, "int32": {32, true}, "int16": {16, true}, "int8": {8, true},
+	"uint64": {64, false}, "uint": {64, false}, "uint32": {32, false}, "uint16": {16, false}, "uint8": {8, false}}
+
+// repEdge: the integer value a sits at a boundary of the Go integer type of THIS representation (its min / max and their neighbours, and
+// for an unsigned type the sign-reinterpretation boundary 2^(bits-1) +- 1): such (value, representation) pairs are never thinned out
+// by the quick tier.
+func repEdge(sr *srep, a *aval) bool {
+	ib, ok := intRepBits[sr.name]
+	if !ok || a.kind != "int" {
+		return false
+	}
+	lo, hi := irange(ib.bits)
+	if !ib.signed {
+		lo, hi = big.NewInt(0), new(big.Int).Sub(pow2(ib.bits), big.NewInt(1))
+	}
+	var edges []*big.Int
+	for _, d := range []int64{0, 1} {
+		edges = append(edges, new(big.Int).Add(lo, big.NewInt(d)), new(big.Int).Sub(hi, big.NewInt(d)))
+	}
+	if !ib.signed {
+		for _, d := range []int64{-1, 0, 1} {
+			edges = append(edges, new(big.Int).Add(pow2(ib.bits-1), big.NewInt(d)))
+		}
+	}
+	for _, e := range edges {
+		if e.Cmp(a.z) == 0 {
+			return true
+		}
+	}
+	return false
 }
 
 func fitsBits(z *big.Int, bits uint, signed bool) bool {
@@ -117,6 +160,7 @@ func zOf(a *aval) *big.Int { return a.z }
 
 var always = func(a *aval) bool { return true }
 
+
 var dateLo, dateHi = time.Date(1, 1, 1, 0, 0, 0, 0, time.UTC).Unix() / 86400, time.Date(9999, 12, 31, 0, 0, 0, 0, time.UTC).Unix() / 86400
 
 func scalarReps(s string) []*srep {
@@ -146,9 +190,23 @@ func scalarReps(s string) []*srep {
 		}
 		return rs
 	case "SFloat":
-		return []*srep{{"float32", reflect.TypeOf(float32(0)), always, func(a *aval) interface{} { return math.Float32frombits(uint32(a.z.Uint64())) }}}
+		f32 := func(a *aval) float32 { return math.Float32frombits(uint32(a.z.Uint64())) }
+		return []*srep{
+			{"float32", tFloat32, always, func(a *aval) interface{} { return f32(a) }},
+			// float64 holding the same number (every float32 widens exactly; a signalling NaN would be quietened by the conversion and is left to float32)
+			{"float64", tFloat64, func(a *aval) bool { return uint64(math.Float32bits(float32(float64(f32(a))))) == a.z.Uint64() },
+				func(a *aval) interface{} { return float64(f32(a)) }},
+		}
 	case "SDouble":
-		return []*srep{{"float64", reflect.TypeOf(float64(0)), always, func(a *aval) interface{} { return math.Float64frombits(a.z.Uint64()) }}}
+		f64 := func(a *aval) float64 { return math.Float64frombits(a.z.Uint64()) }
+		return []*srep{
+			{"float64", tFloat64, always, func(a *aval) interface{} { return f64(a) }},
+			// float32 when the double is a float32 number: exact values, +-0, +-Inf and every NaN whose payload survives the narrowing
+			{"float32", tFloat32, func(a *aval) bool { return math.Float64bits(float64(float32(f64(a)))) == a.z.Uint64() },
+				func(a *aval) interface{} { return float32(f64(a)) }},
+			// *big.Float (precision 53) holds every double except NaN
+			{"*big.Float", tBigFloatPtr, func(a *aval) bool { return !math.IsNaN(f64(a)) }, func(a *aval) interface{} { return new(big.Float).SetFloat64(f64(a)) }},
+		}
 	case "SDate":
 		rs := []*srep{
 			{"time.Time", tTime, always, func(a *aval) interface{} { return time.Unix(a.z.Int64()*86400, 0).UTC() }},
@@ -206,6 +264,19 @@ func scalarReps(s string) []*srep {
 			{"[16]byte", tArr16, always, func(a *aval) interface{} { var u [16]byte; copy(u[:], a.bs); return u }},
 			{"[]byte", tBytes, always, func(a *aval) interface{} { return append([]byte{}, a.bs...) }},
 			{"string(hex)", tString, always, func(a *aval) interface{} { var u primitive.UUID; copy(u[:], a.bs); return u.String() }},
+			{"string(HEX)", tString, always, func(a *aval) interface{} { var u primitive.UUID; copy(u[:], a.bs); return strings.ToUpper(u.String()) }},
+			{"string(hEx mixed case)", tString, always, func(a *aval) interface{} {
+				var u primitive.UUID
+				copy(u[:], a.bs)
+				b := []byte(u.String())
+				for i := range b {
+					if i%2 == 0 && b[i] >= 'a' && b[i] <= 'f' {
+						b[i] -= 'a' - 'A'
+					}
+				}
+				return string(b)
+			}},
+			{"string(hex, no hyphens)", tString, always, func(a *aval) interface{} { return fmt.Sprintf("%x", a.bs) }},
 		}
 	case "SInet":
 		return []*srep{
@@ -378,7 +449,7 @@ func (g *gen) plan(t *ctype, vals []*aval, needComparable bool, preferred bool) 
 			}
 		}
 	}
-	if r.gt != tBigPtr && ((hasNull && !r.nillable()) || (needComparable && !r.gt.Comparable()) || (!preferred && g.pick(5) == 0)) {
+	if !isBigPtr(r.gt) && ((hasNull && !r.nillable()) || (needComparable && !r.gt.Comparable()) || (!preferred && g.pick(5) == 0)) {
 		r = ptrTo(r)
 	}
 	return r
@@ -492,6 +563,13 @@ func abs(t *ctype, v reflect.Value) (res *aval) {
 		}
 		return aInt(v.Interface().(*big.Int))
 	}
+	if v.Type() == tBigFloatPtr {
+		if v.IsNil() {
+			return aNull
+		}
+		f, _ := v.Interface().(*big.Float).Float64()
+		return aFloat64(math.Float64bits(f))
+	}
 	switch v.Kind() {
 	case reflect.Ptr, reflect.Interface:
 		if v.IsNil() {
@@ -528,15 +606,26 @@ func abs(t *ctype, v reflect.Value) (res *aval) {
 				return &aval{kind: "bool", b: z.Sign() != 0}
 			}
 		case "SFloat":
+			if v.Type() == tFloat32 && v.CanInterface() {
+				return aFloat32(uint64(math.Float32bits(v.Interface().(float32)))) // the exact bits (Value.Float would quieten a signalling NaN)
+			}
 			if v.Kind() == reflect.Float32 {
-				return aFloat(uint64(math.Float32bits(float32(v.Float()))))
+				return aFloat32(uint64(math.Float32bits(float32(v.Float()))))
+			}
+			if v.Kind() == reflect.Float64 { // a float64 holding a float32 number
+				return aFloat32(uint64(math.Float32bits(float32(v.Float()))))
 			}
 		case "SDouble":
 			if v.Kind() == reflect.Float64 {
-				return aFloat(math.Float64bits(v.Float()))
+				return aFloat64(math.Float64bits(v.Float()))
 			}
 			if v.Kind() == reflect.Float32 {
-				return aFloat(math.Float64bits(v.Float()))
+				return aFloat64(math.Float64bits(v.Float()))
+			}
+			if v.Type() == tBigFloat {
+				b := v.Interface().(big.Float)
+				f, _ := b.Float64()
+				return aFloat64(math.Float64bits(f))
 			}
 		case "SDate":
 			if v.Type() == tTime {
@@ -605,8 +694,9 @@ func abs(t *ctype, v reflect.Value) (res *aval) {
 				return &aval{kind: "uuid", bs: append([]byte{}, v.Bytes()...)}
 			}
 			if v.Kind() == reflect.String {
-				if u, err := primitive.ParseUuid(v.String()); err == nil {
-					return &aval{kind: "uuid", bs: append([]byte{}, u[:]...)}
+				// parsed independently of primitive.ParseUuid: 32 hex digits of either case, hyphens ignored
+				if b, err := hex.DecodeString(strings.ReplaceAll(v.String(), "-", "")); err == nil && len(b) == 16 {
+					return &aval{kind: "uuid", bs: b}
 				}
 			}
 		case "SInet":
